@@ -211,16 +211,13 @@ func (fc *FnCtx) val(v ssa.Value) Val {
 	case *ssa.Const:
 		return fc.constVal(x)
 	case *ssa.Global:
-		vv, ok := x.Object().(*types.Var)
-		if !ok {
-			unsupported("global %s is not a variable", x.Name())
-		}
+		vv, _ := x.Object().(*types.Var)
 		t := x.Type().(*types.Pointer).Elem()
 		s, ok := sortOf(t)
 		if !ok {
 			unsupported("global %s of type %s", x.Name(), t)
 		}
-		key := "G_" + vv.Pkg().Name() + "." + vv.Name()
+		key := "G_" + x.Pkg.Pkg.Name() + "." + strings.ReplaceAll(x.Name(), "$", "S")
 		fc.w.regHeap(key, s)
 		return AddrGlobal{key, s, vv}
 	case *ssa.Function:
@@ -439,7 +436,7 @@ func (fc *FnCtx) storeField(ref Term, st types.Type, idx int, v Val, frame bool)
 	if frame {
 		fc.frameCheck(key, ref, typeName(st)+"."+f.Name())
 	}
-	fc.st.heap[key] = store(fc.st.Heap(key), ref, fc.asTerm(v, f.Type()))
+	fc.setHeap(key, store(fc.st.Heap(key), ref, fc.asTerm(v, f.Type())))
 }
 
 func (fc *FnCtx) load(addr Val, ptrType types.Type) Val {
@@ -516,8 +513,8 @@ func (fc *FnCtx) storeTo(addr Val, ptrType types.Type, v Val) {
 		fc.storeField(a.ref, a.st, a.idx, v, true)
 	case AddrElem:
 		fc.frameCheck(a.key, a.arr, "element write")
-		h := fc.st.Heap(a.key)
-		fc.st.heap[a.key] = store(h, a.arr, store(sel(h, a.arr), a.idx, fc.asTerm(v, et)))
+		h := fc.define("h", fc.w.heapSorts[a.key], fc.st.Heap(a.key))
+		fc.setHeap(a.key, store(h, a.arr, store(sel(h, a.arr), a.idx, fc.asTerm(v, et))))
 	case AddrGlobal:
 		if !fc.isInit {
 			var alts []Term
@@ -526,7 +523,7 @@ func (fc *FnCtx) storeTo(addr Val, ptrType types.Type, v Val) {
 			}
 			fc.oblige("frame", or(alts...), "write to package variable "+a.key, []string{"C14"}, "")
 		}
-		fc.st.heap[a.key] = fc.asTerm(v, et)
+		fc.setHeap(a.key, fc.asTerm(v, et))
 	case string:
 		fc.nilCheck(a, "pointer write")
 		switch u := et.Underlying().(type) {
@@ -542,15 +539,25 @@ func (fc *FnCtx) storeTo(addr Val, ptrType types.Type, v Val) {
 		case *types.Array:
 			key, _ := fc.w.elemKey(u.Elem())
 			fc.frameCheck(key, a, "array write")
-			fc.st.heap[key] = store(fc.st.Heap(key), a, fc.asTerm(v, et))
+			fc.setHeap(key, store(fc.st.Heap(key), a, fc.asTerm(v, et)))
 			return
 		}
 		key, _ := fc.w.boxKey(et)
 		fc.frameCheck(key, a, "pointer write")
-		fc.st.heap[key] = store(fc.st.Heap(key), a, fc.asTerm(v, et))
+		fc.setHeap(key, store(fc.st.Heap(key), a, fc.asTerm(v, et)))
 	default:
 		unsupported("store through %T", addr)
 	}
+}
+
+// setHeap installs a new version of a heap component, naming long terms so that later uses stay small.
+func (fc *FnCtx) setHeap(key string, t Term) {
+	if len(t) > 160 {
+		n := fc.fresh(sanitize(key), fc.w.heapSorts[key])
+		fc.assumeRaw(eq(n, t))
+		t = n
+	}
+	fc.st.heap[key] = t
 }
 
 func (fc *FnCtx) newRef() Term {
@@ -587,14 +594,14 @@ func (fc *FnCtx) zeroInit(r Term, t types.Type) {
 				continue
 			}
 			key, fs := fc.w.fieldKey(t, f)
-			fc.st.heap[key] = store(fc.st.Heap(key), r, zeroOfSort(fs))
+			fc.setHeap(key, store(fc.st.Heap(key), r, zeroOfSort(fs)))
 		}
 	case *types.Array:
 		key, es := fc.w.elemKey(u.Elem())
-		fc.st.heap[key] = store(fc.st.Heap(key), r, zeroOfSort(arrSort(es)))
+		fc.setHeap(key, store(fc.st.Heap(key), r, zeroOfSort(arrSort(es))))
 	default:
 		key, s := fc.w.boxKey(t)
-		fc.st.heap[key] = store(fc.st.Heap(key), r, zeroOfSort(s))
+		fc.setHeap(key, store(fc.st.Heap(key), r, zeroOfSort(s)))
 	}
 }
 
@@ -616,15 +623,24 @@ func isOpaqueLib(t types.Type) bool {
 func (fc *FnCtx) zeroOpaque(r Term, t types.Type) {
 	switch typeName(t) {
 	case "strings.Builder":
-		fc.st.heap[keyBuilder] = store(fc.st.Heap(keyBuilder), r, "lit_empty")
+		fc.setHeap(keyBuilder, store(fc.st.Heap(keyBuilder), r, "lit_empty"))
 	}
 }
 
 // ---------------------------------------------------------------------------------------------
 // instructions
 
+var debugSizes func(fc *FnCtx)
+var dbgCount int
+
 func (fc *FnCtx) instr(in ssa.Instruction) {
 	fc.curInstr = in
+	if debugSizes != nil {
+		dbgCount++
+		if dbgCount%50 == 0 {
+			debugSizes(fc)
+		}
+	}
 	switch x := in.(type) {
 	case *ssa.DebugRef:
 		return
@@ -775,7 +791,14 @@ func (fc *FnCtx) binop(x *ssa.BinOp) Val {
 		if s == SStr {
 			t = strEq(a, b)
 		} else if s == SSlice {
-			unsupported("slice comparison")
+			// only comparison with nil is legal Go
+			if c, ok := x.Y.(*ssa.Const); ok && c.Value == nil {
+				t = eq(app("sarr", a), "0")
+			} else if c, ok := x.X.(*ssa.Const); ok && c.Value == nil {
+				t = eq(app("sarr", b), "0")
+			} else {
+				unsupported("slice comparison")
+			}
 		} else {
 			t = eq(a, b)
 		}
@@ -1031,7 +1054,7 @@ func (fc *FnCtx) makeSlice(x *ssa.MakeSlice) Val {
 	et := x.Type().Underlying().(*types.Slice).Elem()
 	key, es := fc.w.elemKey(et)
 	r := fc.newRef()
-	fc.st.heap[key] = store(fc.st.Heap(key), r, zeroOfSort(arrSort(es)))
+	fc.setHeap(key, store(fc.st.Heap(key), r, zeroOfSort(arrSort(es))))
 	return app("mkslice", r, "0", n, c)
 }
 
@@ -1155,10 +1178,10 @@ func (fc *FnCtx) convert(x *ssa.Convert) Val {
 		key, _ := fc.w.elemKey(et)
 		r := fc.newRef()
 		if b, ok := et.Underlying().(*types.Basic); ok && b.Kind() == types.Uint8 {
-			fc.st.heap[key] = store(fc.st.Heap(key), r, app("sbytes", s))
+			fc.setHeap(key, store(fc.st.Heap(key), r, app("sbytes", s)))
 			return app("mkslice", r, "0", app("slen", s), app("slen", s))
 		}
-		fc.st.heap[key] = store(fc.st.Heap(key), r, app("srunes", s))
+		fc.setHeap(key, store(fc.st.Heap(key), r, app("srunes", s)))
 		return app("mkslice", r, "0", app("rcount", s), app("rcount", s))
 	case fs == SSlice && ts == SStr:
 		s := fc.term(x.X)
